@@ -37,6 +37,7 @@ class Ctx:
         self.stubs = set()
         self.overridden = set()
         self.build_errors = []
+        self.witness_count = {}
 
     def cleanup(self):
         shutil.rmtree(self.tmp, ignore_errors=True)
@@ -46,7 +47,14 @@ class Ctx:
 
     def src_defs(self):
         return ['-DVERIF_SIM_CPP="%s/src/bloch/runtime/qasm_simulator.cpp"' % REPO,
-                '-DVERIF_REPO_SRC="%s/src"' % REPO]
+                '-DVERIF_REPO_SRC="%s/src"' % REPO,
+                '-DVERIF_LEXER_CPP="%s/src/bloch/compiler/lexer/lexer.cpp"' % REPO,
+                '-DVERIF_PARSER_CPP="%s/src/bloch/compiler/parser/parser.cpp"' % REPO,
+                '-DVERIF_EVAL_CPP="%s/src/bloch/runtime/runtime_evaluator.cpp"' % REPO,
+                '-DVERIF_ANALYSER_CPP="%s/src/bloch/compiler/semantics/semantic_analyser.cpp"' % REPO,
+                '-DVERIF_BUILTINS_CPP="%s/src/bloch/compiler/semantics/built_ins.cpp"' % REPO,
+                '-DVERIF_TYPESYS_CPP="%s/src/bloch/compiler/semantics/type_system.cpp"' % REPO,
+                '-DVERIF_UPDATE_CPP="%s/src/bloch/update/update_manager.cpp"' % REPO]
 
 
 class BuildError(Exception):
@@ -342,7 +350,15 @@ def run_query(ctx, q):
     res = fn(ctx, q, cfile, False)
     res['desc'] = q.desc
     res['entry'] = q.entry
+    run_witness = False
     if res['verdict'] == 'holds' and q.witness:
+        # vacuity guard: one reachability twin per (entry, first few parameter tuples) and then every 8th query
+        with _lock:
+            k = (q.harness, q.entry)
+            n = ctx.witness_count.get(k, 0)
+            ctx.witness_count[k] = n + 1
+        run_witness = q.witness == 'always' or n < 2 or n % 8 == 0
+    if run_witness:
         w = fn(ctx, q, cfile, True)
         ok = w['verdict'] == 'fails'
         if ok and q.mode == 'sat':
@@ -363,8 +379,9 @@ def native_binary(ctx, harness, defs=()):
             return ctx.cache[key]
     out = os.path.join(ctx.tmp, 'native-%s-%s' % (os.path.splitext(harness)[0], hashlib.md5(repr(key).encode()).hexdigest()[:8]))
     cmd = ['g++', '-std=c++20', '-O1', '-g', '-fsanitize=address,undefined', '-fno-sanitize-recover=undefined', '-w',
-           '-rdynamic'] + ctx.incs() + ctx.src_defs() + list(defs) + \
-          [os.path.join(VERIF, 'harness', harness), os.path.join(VERIF, 'replay', 'native_rt.cpp'), '-ldl', '-lpthread', '-o', out]
+           '-rdynamic'] + ctx.incs() + ctx.src_defs() + [d for d in defs if not d.startswith('-l')] + \
+          [os.path.join(VERIF, 'harness', harness), os.path.join(VERIF, 'replay', 'native_rt.cpp'), '-ldl', '-lpthread'] + \
+          [d for d in defs if d.startswith('-l')] + ['-o', out]
     rc, o, t, _ = sh(cmd, timeout=900)
     if rc != 0:
         raise BuildError('ERROR harness-build (native): %s\n%s' % (harness, o[-3000:]))
